@@ -1,5 +1,6 @@
-// C17 harness: deterministic parked schedule for finding F17b — Scanner.sync compares the worker's *live* offset with
-// a file size that scanPaths read *earlier*. If the file grows and the new lines are shipped and confirmed between
+// C17 harness: deterministic parked schedule for finding F17b (fixed by f247e22; kept as a regression case that must
+// pass; a recurrence is tagged F17b) — Scanner.sync compared the worker's *live* offset with
+// a file size that scanPaths read *earlier*. Before the fix, if the file grows and the new lines are shipped and confirmed between
 // the two reads, mergeDescs sees offset > size, takes the scanned descriptor (offset 0), the old worker is told to
 // stop at EOF and a new worker sends the whole file again — without any stop, crash or rotation.
 package main
@@ -149,7 +150,8 @@ func runStale41(in stale41Input, sec *vh.Section) {
 	// MODEL: mergeDescs on (old: offset = all bytes, size = first part) and (new: offset 0, size = first part)
 	model, eq := "", true
 	if driverUsable() {
-		a, err := vh.Batch(args.Driver, []string{fmt.Sprintf("merge 1 6964 %d %d 1 6964 0 %d", len(W), len(w1), len(w1))})
+		// the second stat (fix f247e22) would find the whole file
+		a, err := vh.Batch(args.Driver, []string{fmt.Sprintf("merge 1 6964 %d %d 1 6964 0 %d %d", len(W), len(w1), len(w1), len(W))})
 		if err == nil && len(a) == 1 {
 			model = a[0]
 			eq = strings.HasSuffix(model, fmt.Sprintf(":0:%d:0", len(w1))) // the model also takes the scanned descriptor, offset 0
